@@ -100,7 +100,13 @@ def gen_soil(rng, profile, zmax=2.3):
             pen = 100
             if restrictive and li > 0:
                 pen = rng.choice([0, 10, 30, 50, 80])
-            if rng.random() < 0.5:
+            if li > 0 and layers[-1][0] == "hyd" and rng.random() < _p(profile, "same_fc_layers_p", 0.2):
+                # the same material at another bulk density (plough pan, compacted or loosened horizon): wilting point and
+                # field capacity of the layer above, other pore space and conductivity
+                _, _, wp, fc, sat0, ksat0, _ = layers[-1]
+                sat = round(max(fc + 0.01, sat0 + rng.choice([-1, 1]) * rng.uniform(0.02, 0.12)), 3)
+                layers.append(["hyd", thick, wp, fc, sat, rng.choice([2, 15, 100, 500]), pen])
+            elif rng.random() < 0.5:
                 wp = round(rng.uniform(0.04, 0.32), 3)
                 fc = round(wp + rng.uniform(0.06, 0.22), 3)
                 sat = round(fc + rng.uniform(0.01, 0.2), 3)
@@ -208,6 +214,14 @@ def gen_irr(rng, profile, spec):
             else:
                 dd = start + _dt.timedelta(days=rng.choice([-30, -1, n, n + 20]))
             days.add(dd)
+        if k:
+            # entries on the boundary days of each season: the planting day itself, its eve, the nominal last growing day and
+            # the day after it
+            mat = CROP_INFO[spec["crop"]["name"]]["MaturityCD"]
+            for p in pls:
+                for off, pr in ((0, 0.4), (-1, 0.15), (mat - 1, 0.25), (mat, 0.15)):
+                    if rng.random() < pr:
+                        days.add(p + _dt.timedelta(days=off))
         sched = [[fmt_date(d), rng.choice([0, 5, 10, 20, 30, 50, 80])] for d in sorted(days)]
     elif m == 4:
         kw["NetIrrSMT"] = rng.choice([30, 50, 70, 80, 90, 100])
